@@ -3,6 +3,8 @@ from vf.engine import assume, cover
 from vf.query import Q
 from vf import stubs
 
+import io
+
 import ombott
 
 PROPERTY = "C10"
@@ -282,6 +284,72 @@ def _make(arrangement):
     return q
 
 
+# ---------------------------------------------------------------- request bodies of two applications
+MP_HEAD = b'--b\r\nContent-Disposition: form-data; name="f"; filename="f.bin"\r\n\r\n'
+MP_TAIL = b"\r\n--b--\r\n"
+
+
+def make_bodies(kind, threshold):
+    """application A reads its request body (raw / an uploaded file), serves a request with a body of its own through
+    application B (nested call, same thread) and reads its own body again: both lengths are solver variables on either
+    side of the in-memory threshold"""
+    def q(la: int, lb: int, chunked_b: bool):
+        assume(0 <= la <= 12 and 0 <= lb <= 12)
+        for k in range(13):             # one path per length (slicing by a symbolic int makes bytes of symbolic length)
+            if la == k:
+                la = k
+            if lb == k:
+                lb = k
+        chunked_b = bool(chunked_b)
+        dataA, dataB = b"AAAAAAAAAAAA"[:la], b"bbbbbbbbbbbb"[:lb]
+        A = ombott.Ombott({"max_memfile_size": threshold})
+        B = ombott.Ombott({"max_memfile_size": threshold})
+        seen = []
+
+        def post(path, payload, upload, chunked=False):
+            body = MP_HEAD + payload + MP_TAIL if upload else payload
+            env = env_for(path, "", "c", "h", "POST")
+            if upload:
+                env["CONTENT_TYPE"] = "multipart/form-data; boundary=b"
+            if chunked:
+                env["HTTP_TRANSFER_ENCODING"] = "chunked"
+                body = (b"%x\r\n" % len(body) + body + b"\r\n" if body else b"") + b"0\r\n\r\n"
+            else:
+                env["CONTENT_LENGTH"] = str(len(body))
+            env["wsgi.input"] = io.BytesIO(body)
+            return env
+
+        def read(app):
+            if kind == "raw":
+                return app.request.body.read()
+            f = app.request.files["f"]
+            f.file.seek(0)
+            return f.file.read()
+
+        B.route("/b", method="POST", callback=lambda: read(B))
+
+        def hA():
+            first = read(A)
+            inner = call(B, post("/b", dataB, kind == "upload", bool(chunked_b)))
+            seen.append((first, inner[1], read(A)))
+            return seen[0][2]
+        A.route("/a", method="POST", callback=hA)
+        got, out = call(A, post("/a", dataA, kind == "upload"))
+        if len(seen) != 1:
+            return "handler of A ran %d times: %r" % (len(seen), got)
+        first, inner, second = seen[0]
+        if first != dataA or second != dataA:
+            return "A sent %r: its handler read %r before and %r after B served a request with body %r" % (dataA, first, second, dataB)
+        if inner != dataB:
+            return "B was sent %r and returned %r" % (dataB, inner)
+        if out != dataA:
+            return "A's response body %r, its request body was %r" % (out, dataA)
+        extra = len(MP_HEAD) + len(MP_TAIL) if kind == "upload" else 0
+        cover("spilled-both" if la + extra > threshold and lb + extra > threshold else "other")
+        return None
+    return q
+
+
 ARR = ["nested", "nested_json_error", "copy", "construct", "construct_request", "default_app", "default_outer",
        "default_outer_json_error", "alternating", "shared_errors_map", "status_phrase", "threads"]
 
@@ -294,6 +362,12 @@ def queries(tier):
                      "character): every ASCII letter or digit; A's cookie from %r, query string from %r, status written from %r; "
                      "B's request derived from A's" % (a, COOKIES, QUERIES, STATUS),
                      timeout=200 if tier == "quick" else 600, per_path_timeout=40, expect_cover=["ok"], family="arrangement"))
+    for kind in ("raw", "upload"):
+        th = 8 if kind == "raw" else len(MP_HEAD) + len(MP_TAIL) + 5
+        out.append(Q("bodies/%s" % kind, make_bodies(kind, th),
+                     "nested call with request bodies on both sides (%s): payload lengths of A and B 0..12 each with "
+                     "max_memfile_size %d (both sides of the in-memory threshold), B's body with Content-Length or chunked" % (kind, th),
+                     timeout=200, per_path_timeout=40, expect_cover=["spilled-both", "other"], family="bodies"))
     if tier == "thorough":
         for a in ARR:
             out.append(Q("wide/%s" % a, make(a, wide=True),
